@@ -80,3 +80,12 @@ Qed.
 (* the regenerated fallback of _marker_targets covers every path the marker's name can denote *)
 Lemma marker_fallback_covers : forall mk, marker_fallback (basename mk) = name_candidates mk.
 Proof. intro mk. reflexivity. Qed.
+
+(* the legacy JSON fallback of read_manifest_list_file / read_manifest_file subscripts the section it iterates (`DOC[key]`):
+   a JSON document without it is refused, not read as an empty list / manifest.  Checked by computation on the constants
+   REGENERATED from file_manager.py: with `DOC.get(key, [])` in the source these two lemmas -- and everything proved about
+   what a successful read returned -- are unproved. *)
+Lemma list_json_section_required : LIST_JSON_MISSING_SECTION_READS_EMPTY = false.
+Proof. reflexivity. Qed.
+Lemma manifest_json_section_required : MANIFEST_JSON_MISSING_SECTION_READS_EMPTY = false.
+Proof. reflexivity. Qed.
